@@ -263,6 +263,9 @@ func (sc *pipeScenario) buildBatcher(s *simrt.Sim) *batchers.Batcher {
 
 func (sc *pipeScenario) installPlans(s *simrt.Sim) {
 	for _, in := range sc.Inputs {
+		if s.Opts.Mode == simrt.ModeFree && in.Plan != nil {
+			in.Plan.Rng = simrt.NewLocalRand(s.Tape)
+		}
 		s.FS.SetPlan(in.Name, in.Plan)
 	}
 }
